@@ -323,6 +323,12 @@ class Run:
                 need = int(self.scn.get("tick_wait", 1))   # the node stays in flight over this many loop iterations
                 pred = lambda: self.ticks >= t0 + need or self.ticker_stopped  # noqa: E731
                 self.rt.probe("tick_dependent_bodies")
+        dur = (self.scn.get("slow") or {}).get(fname)
+        if dur and pred is None:
+            # a node that takes (virtual) time: it finishes when the clock reaches its deadline, and the clock only moves when
+            # nothing else can run - so every bounded wait of the code under test expires first
+            self.rt.probe("slow_node_bodies")
+            sim.yield_("body-sleep", deadline=sim.now + float(dur), info=("finish", tok, nid))
         sim.yield_("body", pred=pred, info=("finish", tok, nid))
         if flt is not None and flt["when"] == "late":
             self._raise(flt, op, path, nid)
